@@ -1,4 +1,4 @@
 #!/bin/bash
 # try3.sh <Cxx> props...: run checks on scratch copy against round-3 seed (confirmation done separately)
 ID=$1; shift
-SLOT=s$ID /verif/tools/try_seed_scratch.sh /tmp/seed3/$ID/seed_out/patch.diff "$@" 2>&1 | grep -v vanished | tail -14
+SLOT=s$ID /verif/tools/try_seed_scratch.sh /tmp/seed${R:-3}/$ID/seed_out/patch.diff "$@" 2>&1 | grep -v vanished | tail -14
